@@ -99,7 +99,7 @@ CHECKS.append(check(
 
 CHECKS.append(check(
     "C04", "wsim", "exploration",
-    "One run = one program accepted by the working tree's checker (an operator-stress generator computing with u8, u16, u32 and u64 at once: modular, saturating, bitwise, shift, division and modulus by constants, widening and narrowing conversions, min / max / low_bits / high_bits, compound assignments on narrow types and on array elements, private pure and impure calls, if / else-if / else, counted loops with labelled break and continue including a break out of the enclosing loop; plus the C01 and C02 generators, the slice generator, the hand corpus, and the coroutine generator with I/O) and one seeded history of public calls with boundary-biased arguments on a persistent receiver. The history is executed by the reference interpreter and by the C that the working tree's wuffs-c generates from the same source at check time, compiled by clang-14 (-O0 with ASan+UBSan, or -O2, drawn per run) against the base library generated at check time, and driven by a generated main() that performs exactly the recorded calls. For coroutines the simulated caller's actions (bytes delivered per entry, close, drains, changed arguments, interleaved calls) are recorded and repeated by the C driver on real wuffs_base__io_buffer values. Compared: every return value; for every coroutine entry the status, the source read index and the destination write index; every drained destination byte; then the whole receiver state (every scalar field, every array element) through appended getters. Also reported: a sanitizer report in the C for a history the interpreter executed safely, and generated C that clang rejects.",
+    "One run = one program accepted by the working tree's checker (an operator-stress generator computing with u8, u16, u32 and u64 at once: modular, saturating, bitwise, shift, division and modulus by constants, widening and narrowing conversions, min / max / low_bits / high_bits, compound assignments on narrow types and on array elements, private pure and impure calls, if / else-if / else, counted loops with labelled break and continue including a break out of the enclosing loop; plus the C01 and C02 generators, the slice generator, the hand corpus, and the coroutine generator with I/O) and two to four independent seeded histories of public calls with boundary-biased arguments, each on a freshly initialised persistent receiver (the compile dominates a run's cost; a history costs milliseconds). Each history is executed by the reference interpreter and by the C that the working tree's wuffs-c generates from the same source at check time, compiled by clang-14 (-O0 with ASan+UBSan, or -O2, drawn per run) against the base library generated at check time, and driven by a generated main() that performs exactly the recorded calls. For coroutines the simulated caller's actions (bytes delivered per entry, close, drains, changed arguments, interleaved calls) are recorded and repeated by the C driver on real wuffs_base__io_buffer values. Compared: every return value; for every coroutine entry the status, the source read index and the destination write index; every drained destination byte; then the whole receiver state (every scalar field, every array element) through appended getters. Also reported: a sanitizer report in the C for a history the interpreter executed safely, and generated C that clang rejects.",
     "Sampling of programs x call histories. The interpreter is the reference for 'what the source means' (ideal integers, written from the language documentation; it shares the front end with the compiler) and covers integers, arrays, slices, struct fields, control flow and method calls: `=?`, iterate, choose, SIMD, io_bind/io_limit, token I/O, multi-byte writes and lib/dumbindent formatting are NOT compared (std/ under engine C exercises those paths of cgen only through decoder behaviour). A run in which the interpreter stops with a C01-class violation or leaves its subset, or wuffs-c declines the program, gives no comparison (counted). 'Generated C does not compile' is reported only when clang's first error lies in the generated package file; an error in the harness's main.c is harness trouble (exit 2).",
     "deterministic simulation: one seeded public-call history on persistent receiver state executed by a reference interpreter (model) and by the generated C compiled at check time under sanitizers, differential",
     "DESIGN.md section 3 D, section 5 C04, Appendix E"))
